@@ -894,3 +894,29 @@ Proof.
   destruct (init_in_adv uni client N HN) as [A O]. unfold tight, in_credit. rewrite A, O.
   unfold init_in, zlen; cbn [i_streams length]. lia.
 Qed.
+
+(** reachable states are closed under steps *)
+Lemma irun_snoc : forall ops m m1 outs op m' r fr,
+  irun m ops = (m1, outs) -> istep m1 op = (m', r, fr) ->
+  irun m (ops ++ [op]) = (m', outs ++ [(r, fr)]).
+Proof.
+  induction ops as [|o ops IH]; intros m m1 outs op m' r fr E S; cbn [irun app] in *.
+  - injection E as <- <-. rewrite S. reflexivity.
+  - destruct (istep m o) as [[m2 r2] fr2]. destruct (irun m2 ops) as [m3 outs3] eqn:R.
+    injection E as <- <-. rewrite (IH _ _ _ _ _ _ _ R S). reflexivity.
+Qed.
+
+Lemma ireach_init : forall uni client N, ireach uni client N (init_in uni client N).
+Proof. intros. exists [], []. split; [constructor|reflexivity]. Qed.
+
+Lemma ireach_step : forall uni client N m op m' r fr, ireach uni client N m ->
+  iop_ok (first_incoming uni client) op -> istep m op = (m', r, fr) -> ireach uni client N m'.
+Proof.
+  intros uni client N m op m' r fr (ops & outs & Hok & E) Hop S.
+  exists (ops ++ [op]), (outs ++ [(r, fr)]). split; [apply Forall_app; split; [exact Hok|constructor; [exact Hop|constructor]]|].
+  eapply irun_snoc; eauto.
+Qed.
+
+Theorem in_credit_exact_reach : forall uni client N m, 0 <= N -> ireach uni client N m ->
+  in_opened m + N <= SM_MaxStreamCount -> in_credit m + zlen (i_streams m) = N.
+Proof. intros uni client N m HN (ops & outs & Hok & E) Hb. eapply in_credit_exact; eauto. Qed.
